@@ -8,7 +8,7 @@ the corrmtx least-squares problem.  N up to 200 / orders up to 30: ObsC12.tla.
 import numpy as np
 
 from .. import core, material as M, tlc, obs
-from ..kern_util import call_guard, cmp_vec, cmp_scalar
+from ..kern_util import call_guard, cmp_vec, cmp_scalar, entry_variants
 
 
 def replay_state(chk, st, cplx):
@@ -20,25 +20,27 @@ def replay_state(chk, st, cplx):
         chk.skip('yw-ovf')
         return
     N = st['out']['N']
-    xs = [np.array(M.cq_seq(st['x']), dtype=complex)] if cplx else \
-         [list(M.real_list(st['x'])), np.array(M.real_list(st['x']), dtype=float)]
+    vals = M.cq_seq(st['x']) if cplx else M.real_list(st['x'])
+    counter = getattr(chk, '_c12_counter', 0)
+    chk._c12_counter = counter + 1
+    variants = entry_variants(vals, cplx, counter, full=chk.tier != 'quick')
+    xs = [np.array(vals, dtype=complex if cplx else float)]
     for p in range(1, N):
         s = st['sol'][p - 1]
         expA = np.array(M.cq_seq(s['A']))
         expK = np.array(M.cq_seq(s['ref']))
         expP = float(M.rat(s['P']))
-        for x in xs:
-            kind = 'list' if isinstance(x, list) else 'ndarray'
-            case = {'x': x, 'order': p, 'expect': {'A': expA, 'P': expP, 'k': expK}}
-            ok, res = call_guard(aryule, x if kind == 'list' else x.copy(), p)
+        for ename, x, tol in variants:
+            case = {'x': x, 'entry': ename, 'order': p, 'expect': {'A': expA, 'P': expP, 'k': expK}}
+            ok, res = call_guard(aryule, x if isinstance(x, list) else x.copy(), p)
             chk.evaluations += 1
             if not ok:
-                chk.violation('C12:aryule:%s:raises' % mode, 'aryule raises %r on non-zero data' % (res,), case)
+                chk.violation('C12:aryule:%s:raises:%s' % (mode, ename), 'aryule raises %r on non-zero data (%s input)' % (res, ename), case)
                 continue
             A, P, k = res
-            bad = cmp_vec(A, expA, name='ar') or cmp_scalar(P, expP, name='variance') or cmp_vec(k, expK, name='reflection')
+            bad = cmp_vec(A, expA, tol=tol, name='ar') or cmp_scalar(P, expP, tol=tol, name='variance') or cmp_vec(k, expK, tol=tol, name='reflection')
             if bad:
-                chk.violation('C12:aryule:%s:values' % mode,
+                chk.violation('C12:aryule:%s:values:%s' % (mode, ename),
                               'aryule(x=%s, order=%d) is not the Yule-Walker solution of the biased autocorrelation: %s'
                               % (np.asarray(x).tolist(), p, bad), dict(case, observed={'A': A, 'P': P, 'k': k}))
             if not (np.real(P) > 0 and np.all(np.abs(k) < 1)):
